@@ -125,7 +125,16 @@ def from_arrow(tables, size=None):
 
 def to_pandas(dataset, size=None):
     """wrap the arrow function to convert to pandas"""
-    return dataset.arrow(size).to_pandas()
+    table = dataset.arrow(size)
+    names = table.column_names
+    if len(set(names)) != len(names):
+        # pyarrow picks the columns to convert to pandas' text type by name: under a repeated
+        # column name the cells of one column were converted as if they were another's (numbers
+        # came back as text, bytes and lists raised). Convert by position, then name the columns.
+        frame = table.rename_columns([str(i) for i in range(len(names))]).to_pandas()
+        frame.columns = names
+        return frame
+    return table.to_pandas()
 
 
 def from_pandas(pandas):
